@@ -184,6 +184,13 @@ def run_case(case):
                         impl[m] = ' '.join(arrived) + ' | err:load'
                         continue
                     try:
+                        after_load = pg.flat_bundle(rec['copies'][m])
+                        if after_load != arrived:
+                            fail('load-mutated-bundle', 'loading leaves the bundle as it is (it can be loaded again, or kept)', where, mode,
+                                 dict(medium=m, first_difference=pg.first_diff(arrived, after_load)))
+                    except Exception as e:  # noqa
+                        fail('load-mutated-bundle', 'loading leaves the bundle as it is', where, mode, f'{m}: {type(e).__name__}: {e}')
+                    try:
                         again = pg.flat_bundle(plumpy.Bundle(q, save_ctx(mode)))
                     except Exception as e:  # noqa
                         again = None
